@@ -216,7 +216,9 @@ int main(int argc, char **argv)
                             else cl->args[i].n = nid;
                             break; }
                 case 'a': { size_t nb, j; struct wl_array *a = calloc(1, sizeof *a); char *raw;
-                            fscanf(f, "%zu %65535s", &nb, tok); raw = malloc(nb + 1);
+                            fscanf(f, "%zu %65535s", &nb, tok);
+                            if (nb == 0 && tok[0] == '0') { a->size = 0; a->alloc = 0; a->data = NULL; cl->args[i].a = a; break; }  /* wl_array_init() */
+                            raw = malloc(nb + 1);
                             for (j = 0; j < nb; j++) { unsigned v; sscanf(tok + 2 * j, "%2x", &v); raw[j] = (char)v; }
                             a->size = nb; a->alloc = nb + 8; a->data = raw; cl->args[i].a = a; break; }
                 default: fprintf(stderr, "bad arg kind %s\n", kind); return 2;
